@@ -18,31 +18,6 @@ use model_stages::*;
 
 verus! {
 
-pub proof fn lemma_block_calls(b: &naga::Block, c: int)
-    ensures block_calls(b, c) <==> exists|i: int| #[trigger] calls_at(b, i, c),
-{
-    if block_calls(b, c) {
-        if exists|i: int| 0 <= i < block_stmts(b).len() && stmt_call(&#[trigger] stmt_at(b, i), c) {
-            let i = choose|i: int| 0 <= i < block_stmts(b).len() && stmt_call(&#[trigger] stmt_at(b, i), c);
-            assert(calls_at(b, i, c));
-        } else {
-            let (i, k) = choose|i: int, k: int| 0 <= i < block_stmts(b).len() && 0 <= k < nsub(b, i)
-                && block_height(&#[trigger] subblk(b, i, k)) < block_height(b) && block_calls(&subblk(b, i, k), c);
-            assert(calls_sub(b, i, k, c));
-            assert(calls_at(b, i, c));
-        }
-    }
-    if exists|i: int| #[trigger] calls_at(b, i, c) {
-        let i = choose|i: int| #[trigger] calls_at(b, i, c);
-        if stmt_call(&stmt_at(b, i), c) {
-        } else {
-            let k = choose|k: int| #[trigger] calls_sub(b, i, k, c);
-            axiom_block_height(b, i, k);
-            assert(block_height(&subblk(b, i, k)) < block_height(b));
-        }
-    }
-}
-
 pub proof fn lemma_exact_step(m: &naga::Module, gs1: Map<String, wgpu::ShaderStages>, gs2: Map<String, wgpu::ShaderStages>, k: int)
     requires 0 <= k < m.entry_points@.len(), gss_exact(m, gs1, k),
         sound(gs1, gs2, stage_of(m.entry_points@[k].stage), touched_fn(m, m.entry_points@[k].function)),
@@ -285,15 +260,6 @@ pub proof fn lemma_unvisited_insert(m: &naga::Module, v: Set<naga::Handle<naga::
     assert(vset(m, v2) =~= vset(m, v).insert(c));
 }
 
-pub proof fn lemma_sub_calls(m: &naga::Module, b: &naga::Block, i: int, k: int, c: int)
-    requires 0 <= i < block_stmts(b).len(), 0 <= k < sub_blocks(&block_stmts(b)[i]).len(),
-        block_calls(&sub_blocks(&block_stmts(b)[i])[k], c),
-    ensures calls_sub(b, i, k, c), calls_at(b, i, c), block_calls(b, c),
-{
-    assert(calls_sub(b, i, k, c));
-    assert(calls_at(b, i, c));
-    lemma_block_calls(b, c);
-}
 pub proof fn lemma_sub_inv(m: &naga::Module, b: &naga::Block, i: int, k: int, v: Set<naga::Handle<naga::Function>>, gs: Map<String, wgpu::ShaderStages>, stage: wgpu::ShaderStages)
     requires block_inv(m, b, v, gs, stage), 0 <= i < block_stmts(b).len(), 0 <= k < sub_blocks(&block_stmts(b)[i]).len(),
     ensures block_inv(m, &sub_blocks(&block_stmts(b)[i])[k], v, gs, stage),
